@@ -537,7 +537,7 @@ func (c *c17Client) step() {
 			v := c.val()
 			o := &c17Op{Kind: kind, Effects: []c17Effect{{Key: "schema:" + target, Val: v}}}
 			c.record(o, func() error {
-				_, err := c.ls.E.AddSchema(ctx, &gripql.Graph{Graph: target, Vertices: []*gripql.Vertex{vertexOf("S", "S", v)}})
+				_, err := c.ls.E.AddSchema(ctx, &gripql.Graph{Graph: target, Vertices: []*gripql.Vertex{vertexOf("S"+v, "S", v)}}) // every upload has its own vertex: a stored mix of two uploads shows two vertices
 				return err
 			})
 			if target != g {
@@ -928,7 +928,7 @@ func c17Session(w *fw.Worker, c fw.Case, cc c17Case) fw.Result {
 				stored = append(stored, v.ID+"="+valOf(v.Data))
 			}
 			sort.Strings(stored)
-			if len(stored) != 1 || stored[0] != "S="+cached || len(ss.E) != 0 {
+			if len(stored) != 1 || stored[0] != "S"+cached+"="+cached || len(ss.E) != 0 {
 				return fw.ViolatedR("schema:stored", fmt.Sprintf("the stored schema of %s is %v; the server answers GetSchema with upload %q", tgt, stored, cached), map[string]interface{}{"history": c17Trim(c17Filter(hist.ops, "schema:"+tgt))})
 			}
 			res.Count("stored_schemas_checked", 1)
